@@ -61,6 +61,35 @@ def catalogue(nix, np):
         add(site, "empty_type", lambda T, mk=mk, k=k: mk(T, "fresh_name%d" % k, ""), lambda T, mk=mk, k=k: mk(T, "fresh_name%d" % k, "t"))
         add(site, "type_none", lambda T, mk=mk, k=k: mk(T, "fresh_name2_%d" % k, None), lambda T, mk=mk, k=k: mk(T, "fresh_name2_%d" % k, "t"))
         add(site, "name_not_a_string", lambda T, mk=mk: mk(T, 5, "t"))
+    # ---- text that HDF5 cannot store (an embedded NUL character, a lone surrogate that has no UTF-8 encoding): refused, and nothing changes
+    for tk, bad_text in (("nul", "a\x00b"), ("surrogate", "x\ud800")):
+        for k, (site, mk, existing) in enumerate(creators):
+            add(site, "type_unstorable_text_" + tk, lambda T, mk=mk, k=k, v=bad_text, tk=tk: mk(T, "ut_%s_%d" % (tk, k), v),
+                lambda T, mk=mk, k=k, tk=tk: mk(T, "ut_%s_%d" % (tk, k), "t"))
+            add(site, "name_unstorable_text_" + tk, lambda T, mk=mk, k=k, v=bad_text: mk(T, "un%d_%s" % (k, v), "t"))
+        for key in ("b", "da", "df", "tag", "mtag", "grp", "src", "sec"):
+            add("%s.type" % key, "unstorable_text_" + tk, lambda T, key=key, v=bad_text: setattr(T[key], "type", v))
+            add("%s.definition" % key, "unstorable_text_" + tk, lambda T, key=key, v=bad_text: setattr(T[key], "definition", v))
+        add("DataArray.label", "unstorable_text_" + tk, lambda T, v=bad_text: setattr(T["da"], "label", v))
+        add("DataArray.unit", "unstorable_text_" + tk, lambda T, v=bad_text: setattr(T["da"], "unit", v))
+        add("Tag.units", "unstorable_text_later_" + tk, lambda T, v=bad_text: setattr(T["tag"], "units", ["s", v]))
+        add("MultiTag.units", "unstorable_text_later_" + tk, lambda T, v=bad_text: setattr(T["mtag"], "units", ["s", v]))
+        add("DataFrame.units", "unstorable_text_" + tk, lambda T, v=bad_text: setattr(T["df"], "units", [v] + [None] * (len(T["df"].column_names) - 1)))
+        add("SetDimension.labels", "unstorable_text_later_" + tk, lambda T, v=bad_text: setattr(T["ds"].dimensions[0], "labels", ["k", v]))
+        add("DataArray.append_set_dimension", "labels_unstorable_text_" + tk, lambda T, v=bad_text: T["d1"].append_set_dimension(["k", v]))
+        add("DataArray.append_sampled_dimension", "unit_unstorable_text_" + tk, lambda T, v=bad_text: T["d1"].append_sampled_dimension(1.0, unit=v))
+        add("DataArray.append_range_dimension", "label_unstorable_text_" + tk, lambda T, v=bad_text: T["d1"].append_range_dimension([1.0, 2.0], label=v))
+        add("Property.values", "unstorable_text_later_" + tk, lambda T, v=bad_text: setattr(T["p_text"], "values", ["q", v]))
+        add("Property.extend_values", "unstorable_text_" + tk, lambda T, v=bad_text: T["p_text"].extend_values([v]))
+        add("Property.unit", "unstorable_text_" + tk, lambda T, v=bad_text: setattr(T["p_float"], "unit", v))
+        add("Section.create_property", "values_unstorable_text_" + tk, lambda T, v=bad_text, tk=tk: T["sec"].create_property("utp_" + tk, ["q", v]),
+            lambda T, tk=tk: T["sec"].create_property("utp_" + tk, ["q"]))
+        add("DataArray.append", "unstorable_text_" + tk, lambda T, v=bad_text: T["dtext"].append(np.array([v], dtype=object)))
+        add("DataArray.__setitem__", "unstorable_text_" + tk, lambda T, v=bad_text: T["dtext"].__setitem__(0, v))
+        add("Block.create_data_array", "text_data_unstorable_" + tk,
+            lambda T, v=bad_text, tk=tk: T["b"].create_data_array("utda_" + tk, "t", dtype=nix.DataType.String, data=np.array(["a", v], dtype=object)),
+            lambda T, tk=tk: T["b"].create_data_array("utda_" + tk, "t", data=[1.0]))
+        add("DataFrame.append_rows", "unstorable_text_cell_" + tk, lambda T, v=bad_text: T["df"].append_rows([tuple(v if isinstance(c, str) else c for c in tuple(T["df"][0]))]))
     add("Section.create_property", "duplicate_name", lambda T: T["sec"].create_property("ints", [1]))
     add("Section.create_property", "invalid_name_slash", lambda T: T["sec"].create_property("a/b", [1]), lambda T: T["sec"].create_property("a_b", [1]))
     add("Section.create_property", "empty_name", lambda T: T["sec"].create_property("", [1]))
